@@ -74,6 +74,7 @@ class PortLog:
     """Recording tracer: read_port is a pure function of (port, call index)."""
     def __init__(self, salt=0):
         self.log = []
+        self.offsets = []
         self.salt = salt
 
     def value(self, port, index):
@@ -84,5 +85,6 @@ class PortLog:
         self.log.append(('r', port, v))
         return v
 
-    def write_port(self, registers, port, value):
+    def write_port(self, registers, port, value, offset=0):
         self.log.append(('w', port, value))
+        self.offsets.append(offset)
